@@ -285,9 +285,10 @@ MORE_STATIC = [
     census.sites("scheduler_base.cpp atomic write operations", [SB_CPP], _WRITE, 6,
                  "5 on the state word (constructor 65, suspend 113 + 121, set_all_states 242, set_all_states_at_least 250) + mode_.data_.store 295"),
     census.sites("scheduler_base.cpp writes on the state word", [SB_CPP], r"(?:\bstates_\s*\[[^\]]*\]|\bstate)\s*" + _WRITE, 5),
-    census.sites("thread_pools atomic write operations", [_TP], _WRITE, 7,
-                 "all 7 are on the state word: impl 367 (suspend_internal CAS), 437 (thread_func exchange), 1311 (add_pu exchange), "
-                 "1339 + 1345 (remove_pu exchange + store), 1394 (suspend_pu_internal CAS); scheduling_loop 590 (final store)"),
+    census.sites("thread_pools atomic write operations", [_TP], _WRITE, 6,
+                 "all 6 are on the state word: impl (suspend_internal CAS), (thread_func exchange), (add_pu exchange), "
+                 "(remove_pu compare_exchange_weak; it was exchange + store before the repair of finding O2), (suspend_pu_internal CAS); "
+                 "scheduling_loop (final store)"),
     census.sites("schedulers atomic write operations", [_SCHEDS], _WRITE, 7,
                  "none on the state word: curr_queue_.store (local_priority_queue_scheduler) and six statistics counters (thread_queue)"),
     census.sites("get_state(i) sites (pool / scheduler)", [_ALL], r"\bget_state\s*\(\s*(?!\)|std::memory_order)", 20,
